@@ -34,6 +34,7 @@ func (st *Struct) Caps() schema.Caps {
 	c.Choices = st.useNode // struct-backed Reflect has no case detection
 	c.NoEnums = !st.useNode
 	c.ValueLists = !st.useNode
+	c.ConvSlices = !st.useNode
 	return c
 }
 
@@ -67,6 +68,9 @@ func leafType(s *schema.Node) reflect.Type {
 		panic("leafType " + s.Type)
 	}
 	if s.Kind == schema.LeafList {
+		if s.Type == "int32" && s.ConvSlice {
+			return reflect.TypeOf([]int(nil))
+		}
 		if s.Type == "int32" {
 			return reflect.TypeOf([]int32(nil))
 		}
@@ -122,7 +126,15 @@ func setLeaf(f reflect.Value, s *schema.Node, vs []string) error {
 		if err != nil {
 			return err
 		}
-		f.Set(reflect.ValueOf(g))
+		gv := reflect.ValueOf(g)
+		if gv.Type() != f.Type() {
+			conv := reflect.MakeSlice(f.Type(), gv.Len(), gv.Len())
+			for i := 0; i < gv.Len(); i++ {
+				conv.Index(i).Set(gv.Index(i).Convert(f.Type().Elem()))
+			}
+			gv = conv
+		}
+		f.Set(gv)
 		return nil
 	}
 	if s.Type == "enum" {
